@@ -8,7 +8,8 @@ from vf import cfgspec, gen_shell
 from vf.model import EITHER, MUST_ACCEPT, MUST_REJECT, ports_semantics
 from vf.runner import Fail
 
-RULE = ('Exhaustive through the builder: toy component with <= 3 ports per side (+ an injected '
+RULE = ('Exhaustive through the builder (clause cross_side: both sides over one name universe, so '
+        'that a selection can name the other side\'s ports and both sides can be configured alike):  toy component with <= 3 ports per side (+ an injected '
         'requires port); per side every exposed port set (8) x every sts selection x every mts '
         'selection out of {ALL, REMAINING, NONE} + all non-empty subsets of {a,b,c,unknown} (18 x 18), '
         'the other side neutral: construction -> match -> Builder.build each. Thorough: the full '
@@ -33,7 +34,7 @@ EXPOSED = [list(c) for r in range(0, 4) for c in itertools.combinations(NAMES, r
 ACCESSOR = re.compile(r'^\s*(?:::)?(?:\w+\s*::\s*)*Dzn\s*::\s*(Sts|Mts)\s*<[^>]+>\s*(Provides|Requires)(MultiClient)?(\w+)\s*\(')
 
 
-def toy_model(prov, req, injected):
+def toy_model(prov, req, injected, raw=False):
     """A component with the given provides/requires port names (one shared interface, which is
     also fit for a multi-client configuration: Claim replies an enum, Do is a void in-event)."""
     itf = {'k': 'interface', 'name': ['I'], 'types': [{'k': 'enum', 'name': ['R'], 'fields': ['Ok', 'No']}],
@@ -41,9 +42,10 @@ def toy_model(prov, req, injected):
         {'name': 'Claim', 'dir': 'in', 'ret': ['R'], 'formals': []},
         {'name': 'Do', 'dir': 'in', 'ret': ['void'], 'formals': []},
         {'name': 'Done', 'dir': 'out', 'ret': ['void'], 'formals': []}]}
-    ports = [{'name': 'p' + n, 'type': ['I'], 'dir': 'provides', 'injected': False} for n in prov]
-    ports += [{'name': 'r' + n, 'type': ['I'], 'dir': 'requires', 'injected': False} for n in req]
-    ports += [{'name': 'r' + n, 'type': ['I'], 'dir': 'requires', 'injected': True}
+    pp, rp = ('', '') if raw else ('p', 'r')
+    ports = [{'name': pp + n, 'type': ['I'], 'dir': 'provides', 'injected': False} for n in prov]
+    ports += [{'name': rp + n, 'type': ['I'], 'dir': 'requires', 'injected': False} for n in req]
+    ports += [{'name': rp + n, 'type': ['I'], 'dir': 'requires', 'injected': True}
               for n in injected]
     comp = {'k': 'component', 'name': ['Comp'], 'ports': ports}
     return {'root': [itf, {'k': 'ns', 'ids': ['My'], 'elems': [comp]}], 'wd': '/w'}
@@ -52,10 +54,10 @@ def toy_model(prov, req, injected):
 _FC = {}
 
 
-def toy_fc(prov, req, injected):
-    key = (tuple(prov), tuple(req), tuple(injected))
+def toy_fc(prov, req, injected, raw=False):
+    key = (tuple(prov), tuple(req), tuple(injected), raw)
     if key not in _FC:
-        _FC[key] = cfgspec.parse_model(toy_model(prov, req, injected))
+        _FC[key] = cfgspec.parse_model(toy_model(prov, req, injected, raw))
     return _FC[key]
 
 
@@ -132,9 +134,10 @@ def spec_for(prov_sel, req_sel, enc):
 
 def check_case(case):
     prov, req, inj = case['prov'], case['req'], case['inj']
-    ps = (pre(case['psel'][0], 'p'), pre(case['psel'][1], 'p'))
-    rs = (pre(case['rsel'][0], 'r'), pre(case['rsel'][1], 'r'))
-    pn, rn, jn = ['p' + n for n in prov], ['r' + n for n in req], ['r' + n for n in inj]
+    pp, rp = ('', '') if case.get('raw') else ('p', 'r')
+    ps = (pre(case['psel'][0], pp), pre(case['psel'][1], pp))
+    rs = (pre(case['rsel'][0], rp), pre(case['rsel'][1], rp))
+    pn, rn, jn = [pp + n for n in prov], [rp + n for n in req], [rp + n for n in inj]
     verdict, ref = ports_semantics(ps, rs, pn, rn, jn)
     spec = spec_for(ps, rs, ['My', 'Comp'])
     if case.get('mc'):
@@ -142,7 +145,7 @@ def check_case(case):
         spec['mc'] = {'port': 'p' + case['mc'], 'claim': 'Claim', 'grant': ['Ok'], 'release': 'Do'}
         if verdict != MUST_REJECT and ref.get('p' + case['mc']) != 'MTS':
             verdict = MUST_REJECT
-    fc = toy_fc(prov, req, inj) if case['build'] else None
+    fc = toy_fc(prov, req, inj, bool(case.get('raw'))) if case['build'] else None
     judge(verdict, ref, spec, fc, pn, rn, jn, case['build'])
 
 
@@ -177,6 +180,24 @@ def mc_cases():
                        'build': True, 'mc': 'a'}
 
 
+def cross_cases():
+    """Both sides at once over ONE name universe {a, b, c, zz}: a selection may name ports of the
+    other side (which that side does not have) and the two sides may carry the very same
+    selection.  All 18^4 selection pairs per layout; built when both sides are configured alike
+    and every 50th otherwise."""
+    i = 0
+    for prov, req, inj in ((['a'], ['b'], []), (['a', 'b'], ['c'], []), (['a'], ['b', 'c'], []),
+                           (['a'], ['b'], ['c'])):
+        for ps in SELS:
+            for pm in SELS:
+                for rs in SELS:
+                    for rm in SELS:
+                        i += 1
+                        yield {'prov': prov, 'req': req, 'inj': inj, 'psel': [ps, pm],
+                               'rsel': [rs, rm], 'raw': True,
+                               'build': (ps == rs and pm == rm) or i % 50 == 0}
+
+
 def nontrivial(case):
     def side(ports, sel):
         return len(ports) >= 2 and any(isinstance(x, list) for x in sel)
@@ -184,10 +205,11 @@ def nontrivial(case):
 
 
 def labels(case):
-    ps = (pre(case['psel'][0], 'p'), pre(case['psel'][1], 'p'))
-    rs = (pre(case['rsel'][0], 'r'), pre(case['rsel'][1], 'r'))
-    verdict, _ = ports_semantics(ps, rs, ['p' + n for n in case['prov']],
-                                 ['r' + n for n in case['req']], ['r' + n for n in case['inj']])
+    pp, rp = ('', '') if case.get('raw') else ('p', 'r')
+    ps = (pre(case['psel'][0], pp), pre(case['psel'][1], pp))
+    rs = (pre(case['rsel'][0], rp), pre(case['rsel'][1], rp))
+    verdict, _ = ports_semantics(ps, rs, [pp + n for n in case['prov']],
+                                 [rp + n for n in case['req']], [rp + n for n in case['inj']])
     return ['verdict=' + verdict, 'built' if case['build'] else 'match-only']
 
 
@@ -279,9 +301,14 @@ def run(ctx):
                   labels=labels)
     ctx.enumerate('with_multiclient', mc_cases(), check_case, nontrivial=nontrivial,
                   labels=lambda c: ['multi-client'] + labels(c))
+    ctx.enumerate('cross_side', cross_cases(), check_case, nontrivial=nontrivial,
+                  labels=lambda c: ['cross-side'] + labels(c) +
+                  (['same-selection-both-sides'] if c['psel'] == c['rsel'] else []))
     ctx.exhaustive = True
     ctx.extra['exhaustive_part'] = 'per side: 8 exposed sets x 18 x 18 selections, every case built; ' \
-                                   '4 provides layouts x 18 x 18 selections with a multi-client port'
+                                   '4 provides layouts x 18 x 18 selections with a multi-client port; ' \
+                                   '4 layouts x 18^4 selection pairs over one name universe (a ' \
+                                   'selection may name ports of the other side)'
     if not ctx.quick:
         product_sweep(ctx)
         ctx.extra['exhaustive_part'] += '; both sides: (8 x 18 x 18)^2 at construction+match level'
